@@ -48,6 +48,8 @@ def gen_cases(rng, tier):
         yield {'tag': 'biglist', 'script': s}
     for s in keyword_symbols(rng):
         yield {'tag': 'keyword-symbol', 'script': s}
+    for s in compound_ids(rng):
+        yield {'tag': 'compound-id', 'script': s}
 
 def big_lists(rng):
     out = []
@@ -58,6 +60,33 @@ def big_lists(rng):
         h = {'name': 'big', 'args': [], 'locals': ['x'], 'body': body, 'method': False}
         out.append(H.finish_script({'props': [], 'globals': [], 'factory': None, 'scr_num': 0, 'handlers': [h]}))
     return out
+
+def compound_ids(rng):
+    out = []
+    idx = ('bin', 'add', ('loc', 'i'), ('int', 1))
+    for st in [('call', 'put', [('objprop', 'sprite', idx, 'locH')]), ('setobjprop', 'cast', idx, 'name', ('str', 'x')),
+               ('call', 'put', [('menuprop', 'name', idx, ('int', 1))]), ('call', 'put', [('objprop', 'sound', ('neg', ('loc', 'i')), 'volume')])]:
+        h = {'name': 'cid', 'args': [], 'locals': ['i'], 'body': [st], 'method': False}
+        out.append(H.finish_script({'props': [], 'globals': [], 'factory': None, 'scr_num': 0, 'handlers': [h]}))
+    return out
+
+def has_compound_id(script):
+    hit = [False]
+    def fe(e):
+        if e[0] == 'objprop' and e[1] != 'field' and e[2][0] not in ('int', 'str', 'loc', 'par', 'glob', 'prop'):
+            hit[0] = True
+        if e[0] == 'menuprop' and (e[2][0] not in ('int', 'str', 'loc', 'par', 'glob', 'prop') or e[3][0] not in ('int', 'str', 'loc', 'par', 'glob', 'prop')):
+            hit[0] = True
+        if e[0] in ('menuname', 'menuitems') and e[1][0] not in ('int', 'str', 'loc', 'par', 'glob', 'prop'):
+            hit[0] = True
+    for h in script['handlers']:
+        for st in h['body']:
+            H.walk_node(st, True, lambda n: None, fe)
+            if st[0] == 'setobjprop' and st[2][0] not in ('int', 'str', 'loc', 'par', 'glob', 'prop'):
+                hit[0] = True
+            if st[0] == 'setmenuprop' and (st[2][0] not in ('int', 'str', 'loc', 'par', 'glob', 'prop') or st[3][0] not in ('int', 'str', 'loc', 'par', 'glob', 'prop')):
+                hit[0] = True
+    return hit[0]
 
 def keyword_symbols(rng):
     out = []
@@ -94,6 +123,8 @@ def judge(c, ir, ms):
         fid = None
         if has_keyword_symbol(c['script']) and mt is not None and mt[0] == lingo:
             fid = 'C02-keyword-symbol'
+        elif has_compound_id(c['script']) and mt is not None and mt[0] == lingo:
+            fid = 'C02-compound-object-index'
         out.append((f, 'property', fid))
         return out
     if ms is not None:
